@@ -1311,6 +1311,9 @@ class Explorer:
         if recv is not None and names and not callee.is_static and callee.cls is not None:
             env[names[0]] = recv
             i0 = 1
+        elif names and callee.cls is not None and getattr(callee, 'is_classmethod', False):
+            env[names[0]] = atomv(('class', callee.cls.qualname))
+            i0 = 1
         for i, a in enumerate(args):
             if i0 + i < len(names):
                 env[names[i0 + i]] = a
